@@ -128,7 +128,13 @@ func init() {
 }
 
 var c15MainFaults = []string{"good", "missing", "directory", "empty", "malformed", "wrong-shape", "binary", "unreadable", "unset", "symlink", "dangling"}
-var c15PersonalFaults = []string{"absent", "good", "empty", "malformed", "directory", "unreadable", "unset", "symlink", "dangling", "loop"}
+var c15PersonalFaults = []string{"absent", "good", "empty", "malformed", "directory", "unreadable", "unset", "symlink", "dangling", "loop", "same-path", "hardlink-main", "symlink-main"}
+
+// c15AliasesMain: the notebook path names the main file itself (the same path, a hard link to it, a
+// symbolic link to it): a notebook that loads whenever the main file does, with the same entries
+func c15AliasesMain(persF string) bool {
+	return persF == "same-path" || persF == "hardlink-main" || persF == "symlink-main"
+}
 var c15BackupFaults = []string{"absent", "good", "malformed", "empty"}
 
 var c15MainCmds = []database.Command{
@@ -191,6 +197,17 @@ func c15Judge(mainF, persF, backF string, cfg c15Config, out c15Outcome) string 
 	case "symlink":
 		persF = "good"
 	}
+	persCmds := c15PersonalCmds
+	if c15AliasesMain(persF) {
+		switch mainF {
+		case "good":
+			persF, persCmds = "good", c15MainCmds
+		case "empty":
+			persF = "empty"
+		default:
+			persF = "absent" // the main file does not load: the outcome is the fallback whatever the notebook is
+		}
+	}
 	if out.Panic != "" {
 		return "loading (or searching what it returned) crashed or hung: " + out.Panic + " (" + where + ")"
 	}
@@ -207,7 +224,7 @@ func c15Judge(mainF, persF, backF string, cfg c15Config, out c15Outcome) string 
 			}
 		}
 		if persF == "good" {
-			for _, c := range c15PersonalCmds {
+			for _, c := range persCmds {
 				want = append(want, [2]string{c.Command, c.Description})
 			}
 		}
@@ -272,7 +289,7 @@ func c15Judge(mainF, persF, backF string, cfg c15Config, out c15Outcome) string 
 
 func TestC15_Matrix(t *testing.T) {
 	rec := stat.For("C15")
-	rec.Rule("fault enumeration: every combination of main in {good, missing, directory, empty, malformed, wrong-shape, binary, unreadable} x personal in {absent, good, empty, malformed, directory, unreadable} x backup in {absent, good, malformed, empty} (192 combinations, complete per configuration) x retry configurations drawn by rapid (attempts 0..6, base 0..3ms, factor 1..4, cap 0..10ms incl. cap < base). Unreadable files are loaded in a child under uid 65534. Oracle: db != nil and err == nil; both files fine => main entries then notebook entries; else non-empty searchable fallback; attempts via the observer hook: success 1, missing/permission-denied 1, otherwise <= max(1,configured); waits non-decreasing and <= cap. Non-trivial = at least one faulty file.")
+	rec.Rule("fault enumeration: every combination of main in {good, missing, directory, empty, malformed, wrong-shape, binary, unreadable} x personal in {absent, good, empty, malformed, directory, unreadable, unset, symlink, dangling, loop, the main file itself by path / hard link / symbolic link} x backup in {absent, good, malformed, empty} (complete per configuration) x retry configurations drawn by rapid (attempts 0..6, base 0..3ms, factor 1..4, cap 0..10ms incl. cap < base). Unreadable files are loaded in a child under uid 65534. Oracle: db != nil and err == nil; both files fine => main entries then notebook entries; else non-empty searchable fallback; attempts via the observer hook: success 1, missing/permission-denied 1, otherwise <= max(1,configured); waits non-decreasing and <= cap. Non-trivial = at least one faulty file.")
 	rec.Set("exhaustive", true)
 	self, _ := os.Executable()
 	_ = self
@@ -334,6 +351,14 @@ func c15Matrix(t gen.Fataler, rec *stat.Recorder, cfg c15Config) {
 					}
 					if persF == "unset" {
 						pp = ""
+					}
+					switch persF {
+					case "same-path":
+						pp = mp
+					case "hardlink-main": // fails (and leaves no notebook) when the main path names no file or a directory
+						os.Link(filepath.Join(dir, "commands.yml"), filepath.Join(dir, "personal.yml"))
+					case "symlink-main":
+						os.Symlink("commands.yml", filepath.Join(dir, "personal.yml"))
 					}
 					if mainF == "unreadable" || persF == "unreadable" {
 						label = "child-uid"
@@ -580,5 +605,63 @@ func TestC15_LongBudget(t *testing.T) {
 			prev = d
 		}
 		rec.Case(true, map[string]any{"long_budget": true, "attempts": attempts, "base": cfg.BaseDelay.String(), "cap": cfg.MaxDelay.String(), "factor": cfg.BackoffFactor, "waits": len(waits)}, "long-budget", map[bool]string{true: "odd-retry-config", false: "ordinary-retry-config"}[odd])
+	})
+}
+
+// TestC15_Schedule: the wait schedule of a retry policy, computed through the accessor hook and
+// never slept through, so that caps and base delays of days, years or "no cap at all"
+// (math.MaxInt64) are reachable: the values where float64 arithmetic stops being exact (2^53)
+// and where a conversion back to time.Duration overflows (2^63).
+func TestC15_Schedule(t *testing.T) {
+	rec := stat.For("C15")
+	rec.Rule("wait schedules (computed, not slept): base delay and cap drawn from {0, 1 ns .. 1000 h, 2^53-1 .. 2^53+5, 2^62, 2^63-1025 .. 2^63-1 (math.MaxInt64, 'no cap')} and from all of int64 (negative base included, cap >= 0), factor from {1, 1+1e-9, 1.5, 2, 10, 1e6} and the odd ones (below 1, 0, negative, NaN, +-Inf, 1e200, 1e308, 5e-324), attempts 1..400 asked in order. Oracle: every wait within [0, cap] and never below the one before it. Non-trivial = cap or base above 2^53, or an odd factor.")
+	rapid.Check(t, func(t *rapid.T) {
+		big := []int64{1 << 53, 1<<53 - 1, 1<<53 + 1, 1<<53 + 3, 1<<53 + 5, 1 << 62, 1<<62 + 1, math.MaxInt64 - 1025, math.MaxInt64 - 1024, math.MaxInt64 - 513, math.MaxInt64 - 512, math.MaxInt64 - 511, math.MaxInt64 - 1, math.MaxInt64, math.MaxInt64 / 3, int64(1e18), int64(9e18)}
+		small := []int64{0, 1, 2, 3, 1000, int64(time.Millisecond), int64(time.Second), int64(time.Hour), int64(1000 * time.Hour), int64(2500 * time.Hour)}
+		dur := func(label string, min int64) int64 {
+			switch rapid.IntRange(0, 3).Draw(t, label+"-kind") {
+			case 0:
+				return rapid.SampledFrom(small).Draw(t, label)
+			case 1, 2:
+				return rapid.SampledFrom(big).Draw(t, label)
+			}
+			return rapid.Int64Range(min, math.MaxInt64).Draw(t, label)
+		}
+		cfg := recovery.RetryConfig{
+			MaxAttempts:   rapid.IntRange(1, 400).Draw(t, "attempts"),
+			BaseDelay:     time.Duration(dur("base", math.MinInt64)),
+			MaxDelay:      time.Duration(dur("cap", 0)),
+			BackoffFactor: rapid.SampledFrom([]float64{1, 1, 1 + 1e-9, 1.5, 2, 2, 10, 1e6, 0.5, 0.999, 0, -2, math.NaN(), math.Inf(1), math.Inf(-1), 1e200, 1e308, 5e-324}).Draw(t, "factor"),
+		}
+		dr := recovery.NewDatabaseRecovery(cfg)
+		prev := time.Duration(0)
+		var waits []time.Duration
+		for a := 1; a <= cfg.MaxAttempts; a++ {
+			d := recovery.VerifCalculateDelay(dr, a)
+			waits = append(waits, d)
+			if d < 0 || d > cfg.MaxDelay || d < prev {
+				if len(waits) > 12 {
+					waits = waits[len(waits)-12:]
+				}
+				t.Fatalf("wait after attempt %d is %v (%d ns) after %v, cap %v (%d ns): waits never decrease and never exceed the cap; config %+v\n last waits=%v", a, d, int64(d), prev, cfg.MaxDelay, int64(cfg.MaxDelay), cfg, waits)
+			}
+			prev = d
+		}
+		huge := int64(cfg.MaxDelay) > 1<<53 || int64(cfg.BaseDelay) > 1<<53
+		odd := !(cfg.BackoffFactor >= 1) || cfg.BackoffFactor > 1e100
+		labels := []string{"schedule"}
+		if huge {
+			labels = append(labels, "beyond-2^53")
+		}
+		if cfg.MaxDelay == math.MaxInt64 {
+			labels = append(labels, "no-cap")
+		}
+		if odd {
+			labels = append(labels, "odd-retry-config")
+		}
+		if prev == cfg.MaxDelay && prev > 0 {
+			labels = append(labels, "cap-reached")
+		}
+		rec.Case(huge || odd, map[string]any{"schedule": true, "attempts": cfg.MaxAttempts, "base_ns": int64(cfg.BaseDelay), "cap_ns": int64(cfg.MaxDelay), "factor": fmt.Sprint(cfg.BackoffFactor), "last_wait_ns": int64(prev)}, labels...)
 	})
 }
